@@ -71,18 +71,21 @@ RefIsEncodingOf(enc, early, data) == RefDecode(enc, early) = [st |-> "eod", data
 
 (* ---- packing a code list.  Each element is <<code, width>>.                *)
 PackCodes(codes) ==
-  LET RECURSIVE Pk(_, _, _, _)
-      \* acc: finished bytes; cur: value of the pending bits; nb: how many
-      Pk(i, acc, cur, nb) ==
-        IF i > Len(codes) THEN (IF nb > 0 THEN Append(acc, cur * Pow2(8 - nb)) ELSE acc)
-        ELSE LET v == cur * Pow2(codes[i][2]) + codes[i][1]
-                 n == nb + codes[i][2]
-                 RECURSIVE Out(_, _, _)
-                 Out(a, val, m) == IF m >= 8 THEN Out(Append(a, val \div Pow2(m - 8)), val % Pow2(m - 8), m - 8)
-                                   ELSE <<a, val, m>>
-                 o == Out(acc, v, n)
-             IN Pk(i + 1, TLCEval(o[1]), TLCEval(o[2]), TLCEval(o[3]))
-  IN Pk(1, <<>>, 0, 0)
+  LET \* q = [i, acc, cur, nb]: acc finished bytes; cur value of the nb pending bits
+      Step(q) ==
+        LET v == q.cur * Pow2(codes[q.i][2]) + codes[q.i][1]
+            n == q.nb + codes[q.i][2]
+            RECURSIVE Out(_, _, _)
+            Out(a, val, m) == IF m >= 8 THEN Out(Append(a, val \div Pow2(m - 8)), val % Pow2(m - 8), m - 8)
+                              ELSE <<a, val, m>>
+            o == Out(q.acc, v, n)
+        IN [i |-> q.i + 1, acc |-> o[1], cur |-> o[2], nb |-> o[3]]
+      RECURSIVE Steps(_, _)          \* two levels of iteration: shallow evaluation stack
+      Steps(q, n) == IF n = 0 \/ q.i > Len(codes) THEN q ELSE Steps(Step(q), n - 1)
+      RECURSIVE Loop(_)
+      Loop(q) == IF q.i > Len(codes) THEN q ELSE Loop(Steps(q, 64))
+      f == Loop([i |-> 1, acc |-> <<>>, cur |-> 0, nb |-> 0])
+  IN IF f.nb > 0 THEN Append(f.acc, f.cur * Pow2(8 - f.nb)) ELSE f.acc
 
 (* ---- Impl: the writer (internal/filter/lzw/writer.go).  State:            *)
 (*   dict   the table, a function from 256 * prefix code + byte to code (the  *)
@@ -112,23 +115,28 @@ EmitCodes(c, hi, early, bug) ==
   IF hi + 1 + early = 4095 THEN << <<c, WidthFor(hi + bug, early)>>, <<Clear, WidthFor(hi + 1 + bug, early)>> >>
   ELSE << <<c, WidthFor(hi + bug, early)>> >>
 Resets(hi, early) == hi + 1 + early = 4095
-RECURSIVE ImplRun(_, _, _, _, _, _, _, _)
-ImplRun(xs, i, dict, hi, saved, out, early, bug) ==
-  IF i > Len(xs)
-  THEN \* Close: the pending code, incHi, EOD with the code length then in force
-       IF saved = NoCode THEN Append(out, <<Eod, WidthFor(hi + bug, early)>>)
-       ELSE out \o EmitCodes(saved, hi, early, bug)
-                \o << <<Eod, WidthFor((IF Resets(hi, early) THEN 257 ELSE hi + 1) + bug, early)>> >>
-  ELSE LET b == xs[i] IN
-    IF saved = NoCode THEN ImplRun(xs, i + 1, dict, hi, b, out, early, bug)       \* first byte: a literal
-    ELSE LET key == saved * 256 + b
-             hit == Lookup(dict, key) IN
-      IF hit # NoCode THEN ImplRun(xs, i + 1, dict, hi, TLCEval(hit), out, early, bug)     \* table hit: go on
-      ELSE IF Resets(hi, early)                                                 \* out of codes: no new entry
-        THEN ImplRun(xs, i + 1, EmptyDict, 257, b, TLCEval(out \o EmitCodes(saved, hi, early, bug)), early, bug)
-        ELSE ImplRun(xs, i + 1, TLCEval(Insert(dict, key, hi + 1)), hi + 1, b,
-                     TLCEval(out \o EmitCodes(saved, hi, early, bug)), early, bug)
-ImplCodes(xs, early, bug) == ImplRun(xs, 1, ImplSt0.dict, ImplSt0.hi, ImplSt0.saved, ImplSt0.out, early, bug)
+\* one input byte: q = [i, dict, hi, saved, out]
+ImplStep(xs, q, early, bug) ==
+  LET b == xs[q.i] IN
+  IF q.saved = NoCode THEN [q EXCEPT !.i = @ + 1, !.saved = b]                   \* first byte: a literal
+  ELSE LET key == q.saved * 256 + b
+           hit == Lookup(q.dict, key) IN
+    IF hit # NoCode THEN [q EXCEPT !.i = @ + 1, !.saved = hit]                   \* table hit: go on
+    ELSE IF Resets(q.hi, early)                                                 \* out of codes: no new entry
+      THEN [i |-> q.i + 1, dict |-> EmptyDict, hi |-> 257, saved |-> b, out |-> q.out \o EmitCodes(q.saved, q.hi, early, bug)]
+      ELSE [i |-> q.i + 1, dict |-> Insert(q.dict, key, q.hi + 1), hi |-> q.hi + 1, saved |-> b,
+            out |-> q.out \o EmitCodes(q.saved, q.hi, early, bug)]
+\* Close: the pending code, incHi, EOD with the code length then in force
+ImplClose(q, early, bug) ==
+  IF q.saved = NoCode THEN Append(q.out, <<Eod, WidthFor(q.hi + bug, early)>>)
+  ELSE q.out \o EmitCodes(q.saved, q.hi, early, bug)
+             \o << <<Eod, WidthFor((IF Resets(q.hi, early) THEN 257 ELSE q.hi + 1) + bug, early)>> >>
+RECURSIVE ImplSteps(_, _, _, _, _)   \* two levels of iteration: shallow evaluation stack
+ImplSteps(xs, q, n, early, bug) == IF n = 0 \/ q.i > Len(xs) THEN q ELSE ImplSteps(xs, ImplStep(xs, q, early, bug), n - 1, early, bug)
+RECURSIVE ImplLoop(_, _, _, _)
+ImplLoop(xs, q, early, bug) == IF q.i > Len(xs) THEN q ELSE ImplLoop(xs, ImplSteps(xs, q, 64, early, bug), early, bug)
+ImplCodes(xs, early, bug) ==
+  ImplClose(ImplLoop(xs, [i |-> 1, dict |-> ImplSt0.dict, hi |-> ImplSt0.hi, saved |-> ImplSt0.saved, out |-> ImplSt0.out], early, bug), early, bug)
 ImplEncode(xs, early) == PackCodes(ImplCodes(xs, early, 0))
 
 (* ---- another legal encoder: literals only, a clear code every n codes (so  *)
